@@ -793,3 +793,57 @@ def untuple_bool_matches(facts):
             n.update(tree)
             done[hb["path"]] = done.get(hb["path"], 0) + 1
     return done
+
+
+
+# ------------------------------------------------------------------ `match Kind::A { Kind::A => x, Kind::B => y }`
+def fold_constant_matches(facts):
+    """after a helper with a mode parameter has been folded into a call site that passes a constant variant, a match on that
+    parameter is a match on a constant: it is replaced by the arm it selects (HIR view). Returns {function: count}."""
+    done = {}
+
+    def const_variant(e):
+        while isinstance(e, dict) and e.get("k") in ("Paren", "DropTemps", "Ref") or (isinstance(e, dict) and e.get("k") == "Unary" and e.get("op") == "*"):
+            e = e["e"]
+        if isinstance(e, dict) and e.get("k") == "Path" and e["res"].get("r") == "def" and "Ctor" in (e["res"].get("dk") or "") and e["res"].get("variant"):
+            return e["res"].get("adt"), e["res"]["variant"]
+        return None
+    for hb in facts.hir:
+        if hb["crate"] not in (VISITOR_CRATE, PLUGIN_CRATE) or hb.get("mac"):
+            continue
+        changed = True
+        rounds = 0
+        while changed and rounds < 4:
+            changed = False
+            rounds += 1
+            for n in list(walk(hb["body"])):
+                if n.get("k") != "Match" or "Desugar" in (n.get("src") or "") or "ForLoop" in (n.get("src") or ""):
+                    continue
+                cv = const_variant(n["scrut"])
+                if cv is None:
+                    continue
+                pick = None
+                for a in n["arms"]:
+                    p = a["pat"]
+                    if a.get("guard") is not None:
+                        pick = None
+                        break
+                    if p.get("k") == "PWild":
+                        pick = a
+                        break
+                    if p.get("k") == "PPath" and (p.get("res") or {}).get("variant"):
+                        if (p["res"].get("adt"), p["res"]["variant"]) == cv:
+                            pick = a
+                            break
+                        continue
+                    pick = None
+                    break
+                if pick is None:
+                    continue
+                body = copy.deepcopy(pick["body"])
+                n.clear()
+                n.update(body)
+                done[hb["path"]] = done.get(hb["path"], 0) + 1
+                changed = True
+                break
+    return done
